@@ -194,6 +194,10 @@ def ascii_upper(s):
     return "".join(chr(ord(c) - 32) if "a" <= c <= "z" else c for c in s)
 
 
+def ascii_lower(s):
+    return "".join(chr(ord(c) + 32) if "A" <= c <= "Z" else c for c in s)
+
+
 def forms(h):
     """bare, upper-cased, trailing dot, inside URLs"""
     up = h.upper()
@@ -358,7 +362,8 @@ def cases(rng, tier):
     rules = t["rules"]
     pool = sorted({l for r in rules for l in parse_rule(r)[1] if l and l != "*"})
     # ---- corpus ----
-    yield {"k": "h", "hosts": CORPUS_HOSTS, "spec": True, "tag": "corpus"}
+    for h in CORPUS_HOSTS:
+        yield {"k": "h", "hosts": [h], "spec": True, "tag": "corpus"}
     yield {"k": "h", "hosts": ["localhost", "127.0.0.1", "1.2.3.4", "999.999.999.999"], "spec": True, "tag": "special"}
     yield {"k": "u", "urls": SPECIAL_HOSTS_AS_URLS + ["http://", "", "/path", "http:///p"], "tag": "special-urls"}
     yield {"k": "sp", "hosts": SPECIAL_STRINGS}
@@ -604,6 +609,12 @@ def _oracle_h(case):
     inputs = _h_inputs(case)
     isv = dict(zip(labels, tl["is"]))
     ns = {}
+    # the hypotheses of the punycode theorems (PunyLaws), on the real codec, for every label decoded here
+    for l in labels:
+        k = l.lstrip(".").lower()
+        d = puny_real(k)
+        if puny_real(ascii_lower(d)) != d or ("." in d and "." not in k):
+            return "PunyLaws does not hold for the real codec on %r (decodes to %r)" % (k, d)
     for (h, f), row, has in zip(inputs, rows, tl["has"]):
         if oracle_special(h):
             continue
